@@ -7,7 +7,7 @@
    (`list A`, association-list maps and sets, `option`, Z/Q).  Mutable containers are values with the
    state threaded explicitly.  Element/key types are ANY type with an embedding into run-time values. *)
 From Coq Require Import String List ZArith QArith Qround Bool.
-From Sylt Require Import Lua.LuaNum Sem.Values Sem.Runtime Sem.Containers Sem.RuntimeLaws Sem.ContainerLaws
+From Sylt Require Import Lua.LuaNum Sem.Values Sem.Runtime Sem.Containers Sem.RuntimeLaws Sem.ContainerLaws Sem.KeyEncoding
                          Sem.DocRuntime Gen.GenPreamble.
 Import ListNotations.
 Local Open Scope string_scope.
@@ -79,11 +79,11 @@ Theorem C18_multi_step_frame : forall (A : Type) (aeqb : A -> A -> bool) (op : m
   nth r' (fst (m_step A aeqb op regs)) [] = nth r' regs [].
 Proof. exact multi_step_frame. Qed.
 
-(* ---- dicts and sets: every history, under key injectivity ---- *)
+(* ---- dicts and sets: every history, under key injectivity (entries are kept under __KEY(key) since /repo aaf31ad) ---- *)
 
 Theorem C18_dict_history : forall (K V : Type) (embK : K -> value) (embV : V -> value) (keqb : K -> K -> bool),
   (forall k k', keqb k k' = true <-> k = k') ->
-  (forall k k', rt_tostring (embK k) = rt_tostring (embK k') -> k = k') ->
+  (forall k k', rt_key (embK k) = rt_key (embK k') -> k = k') ->
   forall ops m,
   rt_drun K V embK embV ops (rep_dict K V embK embV m) =
   Ok (rep_dict K V embK embV (fst (d_run K V keqb ops m)), map (emb_dobs V embV) (snd (d_run K V keqb ops m))).
@@ -91,14 +91,14 @@ Proof. exact dict_history_refines. Qed.
 
 Theorem C18_dict_from_list : forall (K V : Type) (embK : K -> value) (embV : V -> value) (keqb : K -> K -> bool),
   (forall k k', keqb k k' = true <-> k = k') ->
-  (forall k k', rt_tostring (embK k) = rt_tostring (embK k') -> k = k') ->
+  (forall k k', rt_key (embK k) = rt_key (embK k') -> k = k') ->
   forall l, rt_dict_from_list (VList (map (fun kv => VTuple [embK (fst kv); embV (snd kv)]) l))
             = Ok (rep_dict K V embK embV (m_from_list keqb l)).
 Proof. exact dict_from_list_refines. Qed.
 
 Theorem C18_set_history : forall (K : Type) (embK : K -> value) (keqb : K -> K -> bool),
   (forall k k', keqb k k' = true <-> k = k') ->
-  (forall k k', rt_tostring (embK k) = rt_tostring (embK k') -> k = k') ->
+  (forall k k', rt_key (embK k) = rt_key (embK k') -> k = k') ->
   forall ops s,
   rt_srun K embK ops (rep_set K embK s) =
   Ok (rep_set K embK (fst (s_run K keqb ops s)), map emb_sobs (snd (s_run K keqb ops s))).
@@ -106,19 +106,57 @@ Proof. exact set_history_refines. Qed.
 
 Theorem C18_set_from_list : forall (K : Type) (embK : K -> value) (keqb : K -> K -> bool),
   (forall k k', keqb k k' = true <-> k = k') ->
-  (forall k k', rt_tostring (embK k) = rt_tostring (embK k') -> k = k') ->
+  (forall k k', rt_key (embK k) = rt_key (embK k') -> k = k') ->
   forall l, rt_set_from_list (VList (map embK l)) = Ok (rep_set K embK (s_from_list keqb l)).
 Proof. exact set_from_list_refines. Qed.
 
-(* key injectivity: strings, and ints (Lua 5.3 prints every digit of an integer) *)
-Theorem C18_key_inj_str : forall s s', rt_tostring (VStr s) = rt_tostring (VStr s') -> s = s'.
-Proof. exact key_inj_str. Qed.
+(* KEY INJECTIVITY.  rt_key is the model of __KEY: strings length-prefixed, ints "%d", floats "%.17g", tuples
+   "(" components ")" with self-delimiting components.  Key types without floats (ints, strings, nested tuples
+   of them): unconditional. *)
+Theorem C18_key_inj_nofloat : forall t a b, key_ty_nofloat t = true -> vty t a -> vty t b ->
+  rt_key a = rt_key b -> a = b.
+Proof. exact rt_key_inj_nofloat. Qed.
 
-Theorem C18_key_inj_int : forall z z', rt_tostring (vint z) = rt_tostring (vint z') -> z = z'.
-Proof. exact key_inj_int. Qed.
+(* ALL admitted key types, floats included.  The float text is string.format("%.17g"); that it separates the
+   floats in use (F) and contains no ';' is an EXPLICIT PREMISE: true of IEEE doubles (binary64 round trip),
+   not provable for the model's exact rationals -- see C18_key_rational_collision. *)
+Theorem C18_key_inj : forall (F : Q -> Prop),
+  (forall p q, F p -> F q -> fmt_g17 p = fmt_g17 q -> p = q) ->
+  (forall q, F q -> no_semi (fmt_g17 q) = true) ->
+  forall t a b, key_ty t = true -> vty t a -> vty t b -> floats_in F a -> floats_in F b ->
+  rt_key a = rt_key b -> a = b.
+Proof. exact rt_key_inj. Qed.
 
-(* hence: every history on dicts and sets keyed by strings or by ints (remove included: dict_remove uses
-   tostring(k) since /repo 6c29222) *)
+(* the hypothesis of C18_dict_history / C18_set_history for any embedding into an admitted key type *)
+Theorem C18_key_hypothesis : forall (K : Type) (embK : K -> value) (t : ty) (F : Q -> Prop),
+  (forall p q, F p -> F q -> fmt_g17 p = fmt_g17 q -> p = q) ->
+  (forall q, F q -> no_semi (fmt_g17 q) = true) ->
+  key_ty t = true -> (forall k, vty t (embK k) /\ floats_in F (embK k)) -> (forall k k', embK k = embK k' -> k = k') ->
+  forall k k', rt_key (embK k) = rt_key (embK k') -> k = k'.
+Proof. exact key_hypothesis_from_typing. Qed.
+
+(* the premises are satisfiable, and the pairs that collided under tostring are separated *)
+Example C18_key_premises_example :
+  let F := fun q : Q => q = (1 # 2)%Q \/ q = (3 # 2)%Q \/ q = (1000000000000001 # 1000000000000000)%Q
+                        \/ q = (500000000000001 # 500000000000000)%Q in
+  (forall p q, F p -> F q -> fmt_g17 p = fmt_g17 q -> p = q) /\ (forall q, F q -> no_semi (fmt_g17 q) = true).
+Proof. exact rt_key_inj_premises. Qed.
+
+Example C18_key_former_collisions :
+  rt_key (VTuple [VStr "a, b"; VStr "c"]) <> rt_key (VTuple [VStr "a"; VStr "b, c"]) /\
+  rt_key (VFloat (1000000000000001 # 1000000000000000)) <> rt_key (VFloat (500000000000001 # 500000000000000)) /\
+  rt_key (VTuple [VStr "a, b"; VStr "c"]) = "(s4:a, bs1:c)" /\ rt_key (VTuple [VInt 1; VTuple [VFloat (2 # 1); VStr "x"]]) = "(i1;(n2;s1:x))".
+Proof. exact rt_key_former_collisions. Qed.
+
+(* WHAT STILL COLLIDES, in the model only: two rationals that agree in 17 significant digits (they cannot both
+   be IEEE doubles) have one key text and share a dict entry *)
+Theorem C18_key_rational_collision : exists p q : Q,
+  q_wf p /\ q_wf q /\ ~ Qeq p q /\ rt_key (VFloat p) = rt_key (VFloat q) /\
+  exists d, rbind (rt_dict_update rt_dict_new (VFloat p) (vint 1)) (fun d1 => rt_dict_update d1 (VFloat q) (vint 2)) = Ok d /\
+            rt_len d = Ok (vint 1).
+Proof. exact rt_key_rational_collision. Qed.
+
+(* hence every history on dicts and sets keyed by strings, ints, (int, int) and (str, str) *)
 Theorem C18_dict_history_str_keys : forall (V : Type) (embV : V -> value) ops m,
   rt_drun string V VStr embV ops (rep_dict string V VStr embV m) =
   Ok (rep_dict string V VStr embV (fst (d_run string V String.eqb ops m)),
@@ -131,6 +169,18 @@ Theorem C18_dict_history_int_keys : forall (V : Type) (embV : V -> value) ops m,
       map (emb_dobs V embV) (snd (d_run Z V Z.eqb ops m))).
 Proof. exact dict_history_int_keys. Qed.
 
+Theorem C18_dict_history_int_tuple_keys : forall (V : Type) (embV : V -> value) ops m,
+  rt_drun (Z * Z) V emb_zz embV ops (rep_dict (Z * Z) V emb_zz embV m) =
+  Ok (rep_dict (Z * Z) V emb_zz embV (fst (d_run (Z * Z) V zz_eqb ops m)),
+      map (emb_dobs V embV) (snd (d_run (Z * Z) V zz_eqb ops m))).
+Proof. exact dict_history_int_tuple_keys. Qed.
+
+Theorem C18_dict_history_str_tuple_keys : forall (V : Type) (embV : V -> value) ops m,
+  rt_drun (string * string) V emb_ss embV ops (rep_dict (string * string) V emb_ss embV m) =
+  Ok (rep_dict (string * string) V emb_ss embV (fst (d_run (string * string) V ss_eqb ops m)),
+      map (emb_dobs V embV) (snd (d_run (string * string) V ss_eqb ops m))).
+Proof. exact dict_history_str_tuple_keys. Qed.
+
 Theorem C18_set_history_str_keys : forall ops s,
   rt_srun string VStr ops (rep_set string VStr s) =
   Ok (rep_set string VStr (fst (s_run string String.eqb ops s)), map emb_sobs (snd (s_run string String.eqb ops s))).
@@ -141,46 +191,16 @@ Theorem C18_set_history_int_keys : forall ops s,
   Ok (rep_set Z vint (fst (s_run Z Z.eqb ops s)), map emb_sobs (snd (s_run Z Z.eqb ops s))).
 Proof. exact set_history_int_keys. Qed.
 
-(* key injectivity is FALSE for floats (14 significant digits) and for tuples that contain strings *)
-Theorem C18_key_inj_float_refuted : exists p q : Q,
-  q_wf p /\ q_wf q /\ ~ Qeq p q /\ rt_tostring (VFloat p) = rt_tostring (VFloat q) /\
-  rt_tostring (VFloat p) = "1.0".
-Proof. exact key_inj_float_refuted. Qed.
-
-Theorem C18_key_inj_tuple_str_refuted : exists a b c d : string,
-  (a, b) <> (c, d) /\ rt_tostring (VTuple [VStr a; VStr b]) = rt_tostring (VTuple [VStr c; VStr d]).
-Proof. exact key_inj_tuple_str_refuted. Qed.
-
-Theorem C18_dict_tuple_key_collision : exists k1 k2 v1 v2 d,
-  rt_eq k1 k2 = false /\
-  rbind (rt_dict_update rt_dict_new k1 v1) (fun d1 => rt_dict_update d1 k2 v2) = Ok d /\
-  rt_len d = Ok (vint 1) /\ rt_dict_get d k1 = Ok (mk_just v2).
-Proof. exact dict_tuple_key_collision. Qed.
-
-(* tostring is injective on ints and (nested) tuples of ints: the printed form is uniquely readable *)
-Theorem C18_key_inj_int_tuple : forall t a b, int_tuple_ty t = true -> vty t a -> vty t b ->
-  rt_tostring a = rt_tostring b -> a = b.
-Proof. exact tostring_inj_int_tuple. Qed.
-
-(* the statement that used to be left open: flat tuples of ints of one length *)
-Definition C18_key_inj_int_tuple_statement : Prop :=
-  forall zs zs' : list Z, length zs = length zs' ->
-  rt_tostring (VTuple (map vint zs)) = rt_tostring (VTuple (map vint zs')) -> zs = zs'.
-
-Theorem C18_key_inj_int_tuple_flat : C18_key_inj_int_tuple_statement.
-Proof. exact key_inj_int_tuple. Qed.
-
-(* hence every history on dicts and sets keyed by (int, int) *)
-Theorem C18_dict_history_int_tuple_keys : forall (V : Type) (embV : V -> value) ops m,
-  rt_drun (Z * Z) V emb_zz embV ops (rep_dict (Z * Z) V emb_zz embV m) =
-  Ok (rep_dict (Z * Z) V emb_zz embV (fst (d_run (Z * Z) V zz_eqb ops m)),
-      map (emb_dobs V embV) (snd (d_run (Z * Z) V zz_eqb ops m))).
-Proof. exact dict_history_int_tuple_keys. Qed.
-
 Theorem C18_set_history_int_tuple_keys : forall ops s,
   rt_srun (Z * Z) emb_zz ops (rep_set (Z * Z) emb_zz s) =
   Ok (rep_set (Z * Z) emb_zz (fst (s_run (Z * Z) zz_eqb ops s)), map emb_sobs (snd (s_run (Z * Z) zz_eqb ops s))).
 Proof. exact set_history_int_tuple_keys. Qed.
+
+Theorem C18_set_history_str_tuple_keys : forall ops s,
+  rt_srun (string * string) emb_ss ops (rep_set (string * string) emb_ss s) =
+  Ok (rep_set (string * string) emb_ss (fst (s_run (string * string) ss_eqb ops s)),
+      map emb_sobs (snd (s_run (string * string) ss_eqb ops s))).
+Proof. exact set_history_str_tuple_keys. Qed.
 
 (* ---- library-made values vs source-written values ---- *)
 
@@ -266,19 +286,18 @@ Print Assumptions C18_dict_history.
 Print Assumptions C18_dict_from_list.
 Print Assumptions C18_set_history.
 Print Assumptions C18_set_from_list.
-Print Assumptions C18_key_inj_str.
-Print Assumptions C18_key_inj_int.
+Print Assumptions C18_key_inj_nofloat.
+Print Assumptions C18_key_inj.
+Print Assumptions C18_key_hypothesis.
+Print Assumptions C18_key_rational_collision.
 Print Assumptions C18_dict_history_str_keys.
 Print Assumptions C18_dict_history_int_keys.
+Print Assumptions C18_dict_history_int_tuple_keys.
+Print Assumptions C18_dict_history_str_tuple_keys.
 Print Assumptions C18_set_history_str_keys.
 Print Assumptions C18_set_history_int_keys.
-Print Assumptions C18_key_inj_float_refuted.
-Print Assumptions C18_key_inj_tuple_str_refuted.
-Print Assumptions C18_dict_tuple_key_collision.
-Print Assumptions C18_key_inj_int_tuple.
-Print Assumptions C18_key_inj_int_tuple_flat.
-Print Assumptions C18_dict_history_int_tuple_keys.
 Print Assumptions C18_set_history_int_tuple_keys.
+Print Assumptions C18_set_history_str_tuple_keys.
 Print Assumptions C18_lib_maybe_eq.
 Print Assumptions C18_lib_none_is_src_none.
 Print Assumptions C18_lib_none_eq.
